@@ -204,6 +204,32 @@ func (c *stepCheck) checkIOFault(hung bool) {
 		}
 	}
 
+	// ---- concurrency (C15): never more than maxActiveRuns step commands at once (processes only here)
+	if d.MaxActiveRuns > 0 {
+		maxc := 0
+		var worst []string
+		for _, a := range c.truth.Runs {
+			if isHandlerStep(a.Name) {
+				continue
+			}
+			n := 0
+			var names []string
+			for _, b := range c.truth.Runs {
+				if !isHandlerStep(b.Name) && b.StartSeq <= a.StartSeq && (b.EndSeq == 0 || b.EndSeq > a.StartSeq) {
+					n++
+					names = append(names, b.Name)
+				}
+			}
+			if n > maxc {
+				maxc, worst = n, names
+			}
+		}
+		if maxc > d.MaxActiveRuns {
+			sort.Strings(worst)
+			c.viol("C15", "limit-exceeded", fmt.Sprintf("iofault/over-by-%d", maxc-d.MaxActiveRuns), "maxActiveRuns=%d but %d step commands were executing at once: %v", d.MaxActiveRuns, maxc, worst)
+		}
+	}
+
 	// ---- containment (C02): a step downstream of a dependency that is finally failed (without
 	// continueOn.failure), canceled, or skipped (without continueOn.skipped) has not been executed
 	for i := range d.Steps {
